@@ -342,6 +342,42 @@ func checkStateless(m sdk.Msg) (msg string, want world.Verdict, got bool) {
 	return "", want, got
 }
 
+// TestC16Charset enumerates completely every single-byte deviation from the documented
+// character set of topic names and monikers: all 256 byte values x {first, middle, last}
+// position x {1, 35, 70}-byte strings.
+func TestC16Charset(t *testing.T) {
+	st := newPureStats("C16")
+	defer st.flush()
+	a := simnet.NewAccount("a0").Bech
+	n := 0
+	for b := 0; b < 256; b++ {
+		for _, ln := range []int{1, 35, 70} {
+			for _, pos := range []int{0, ln / 2, ln - 1} {
+				bs := []byte(sized(ln, "a"))
+				bs[pos] = byte(b)
+				v := string(bs)
+				msgs := []sdk.Msg{
+					&aoltypes.MsgCreateTopicRequest{TopicName: v, OwnerAddress: a},
+					&aoltypes.MsgAddWriterRequest{TopicName: "t", Moniker: v, WriterAddress: a, OwnerAddress: a},
+					&aoltypes.MsgDeleteWriterRequest{TopicName: v, WriterAddress: a, OwnerAddress: a},
+					&aoltypes.MsgAddRecordRequest{TopicName: v, WriterAddress: a, OwnerAddress: a},
+				}
+				for _, m := range msgs {
+					if msg, _, _ := checkStateless(m); msg != "" {
+						bz, _ := proto.Marshal(m)
+						failPure(t, "C16", "c16-msg", map[string]interface{}{"type_url": sdk.MsgTypeURL(m), "value_b64": base64.StdEncoding.EncodeToString(bz)}, "%s", msg)
+					}
+					bz, _ := proto.Marshal(m)
+					st.add(true, hash8(bz, []byte(sdk.MsgTypeURL(m))), nil, "charset sweep")
+					n++
+				}
+			}
+		}
+	}
+	st.extra["charset_sweep_exhaustive"] = true
+	st.extra["charset_sweep_cases"] = n
+}
+
 func TestC16(t *testing.T) {
 	st := newPureStats("C16")
 	defer st.flush()
